@@ -114,7 +114,13 @@ fn start_watchdog(limit_ms: u64) {
 // ---------------------------------------------------------------------------------------------
 
 fn no_val() -> J {
-    json!({"ok":false,"panic":false,"v":none_term(),"consumed":0,"err":""})
+    json!({"ok":false,"panic":false,"v":none_term(),"consumed":0,"err":"","ekind":""})
+}
+
+/// kind of a reported error, projected from its text: "alloc" = the configured allocation limit was
+/// applied (`Details::MemoryAllocation`), "other" = anything else, "" = no error
+fn ekind(e: &str) -> &'static str {
+    if e.is_empty() { "" } else if e.contains("Unable to allocate") { "alloc" } else { "other" }
 }
 
 /// generic decoder on bytes ∘ sentinel; plus validate / re-encode / re-decode of an Ok result
@@ -158,14 +164,14 @@ fn run_datum(schema: &Schema, bytes: &[u8]) -> J {
                 Ok(Ok((v2, c2))) => (true, value_to_vterm(&v2), c2),
                 _ => (false, none_term(), 0),
             };
-            json!({"ok":true,"panic":false,"v":value_to_vterm(&v),"consumed":small(c),"err":"",
+            json!({"ok":true,"panic":false,"v":value_to_vterm(&v),"consumed":small(c),"err":"","ekind":"",
                    "valid": matches!(valid, Ok(true)), "post_panic": valid.is_err() || re_panic,
                    "reenc":{"ok":re_ok,"wire":bytes_j(&re_wire)},
                    "redec":{"ok":rd_ok,"v":rd_v,"consumed":small(rd_c)}})
         }
-        Ok(Err(e)) => json!({"ok":false,"panic":false,"v":none_term(),"consumed":0,"err":e,"valid":false,"post_panic":false,
+        Ok(Err(e)) => json!({"ok":false,"panic":false,"v":none_term(),"consumed":0,"ekind":ekind(&e),"err":e,"valid":false,"post_panic":false,
                              "reenc":{"ok":false,"wire":[]},"redec":{"ok":false,"v":none_term(),"consumed":0}}),
-        Err(p) => json!({"ok":false,"panic":true,"v":none_term(),"consumed":0,"err":p,"valid":false,"post_panic":false,
+        Err(p) => json!({"ok":false,"panic":true,"v":none_term(),"consumed":0,"err":p,"ekind":"panic","valid":false,"post_panic":false,
                          "reenc":{"ok":false,"wire":[]},"redec":{"ok":false,"v":none_term(),"consumed":0}}),
     }
 }
@@ -184,9 +190,9 @@ fn run_deser(schema: &Schema, bytes: &[u8]) -> J {
     }));
     m_end();
     match r {
-        Ok(Ok(c)) => json!({"ok":true,"panic":false,"consumed":small(c),"err":""}),
-        Ok(Err(e)) => json!({"ok":false,"panic":false,"consumed":0,"err":e}),
-        Err(p) => json!({"ok":false,"panic":true,"consumed":0,"err":p}),
+        Ok(Ok(c)) => json!({"ok":true,"panic":false,"consumed":small(c),"err":"","ekind":""}),
+        Ok(Err(e)) => json!({"ok":false,"panic":false,"consumed":0,"ekind":ekind(&e),"err":e}),
+        Err(p) => json!({"ok":false,"panic":true,"consumed":0,"err":p,"ekind":"panic"}),
     }
 }
 
